@@ -992,9 +992,14 @@ void SAX2XMLReaderImpl::doctypeDecl(const   DTDElementDecl& elemDecl
                             , const bool            hasIntSubset
                             , const bool            hasExtSubset)
 {
-    // Call the installed LexicalHandler.
-    if (fLexicalHandler && (hasIntSubset || hasExtSubset))
+    // Call the installed LexicalHandler. A DOCTYPE declaration without any
+    // subset is reported too; nothing follows it, so it is closed at once.
+    if (fLexicalHandler)
+    {
         fLexicalHandler->startDTD(elemDecl.getFullName(), publicId, systemId);
+        if (!hasIntSubset && !hasExtSubset)
+            fLexicalHandler->endDTD();
+    }
 
     fHasExternalSubset = hasExtSubset;
 
